@@ -1,0 +1,37 @@
+//go:build verif
+
+/*
+ Licensed to the Apache Software Foundation (ASF) under one
+ or more contributor license agreements.  See the NOTICE file
+ distributed with this work for additional information
+ regarding copyright ownership.  The ASF licenses this file
+ to you under the Apache License, Version 2.0 (the
+ "License"); you may not use this file except in compliance
+ with the License.  You may obtain a copy of the License at
+
+     http://www.apache.org/licenses/LICENSE-2.0
+
+ Unless required by applicable law or agreed to in writing, software
+ distributed under the License is distributed on an "AS IS" BASIS,
+ WITHOUT WARRANTIES OR CONDITIONS OF ANY KIND, either express or implied.
+ See the License for the specific language governing permissions and
+ limitations under the License.
+*/
+
+package metrics
+
+import (
+	dto "github.com/prometheus/client_model/go"
+)
+
+// Export shim for the model-based verification harness (build tag verif). No behaviour of its own.
+
+// VerifEventsProcessed reads the "total events processed" gauge, which the event system increments after it has
+// stored, recorded and published an event; the harness uses it to know that PublishEvent has returned.
+func (em *EventMetrics) VerifEventsProcessed() int {
+	m := &dto.Metric{}
+	if err := em.totalEventsProcessed.Write(m); err != nil {
+		return -1
+	}
+	return int(m.GetGauge().GetValue())
+}
